@@ -536,7 +536,12 @@ impl CmXmlParser {
 
     /// Parse every target display to create L10 metadata if they use custom primaries
     fn parse_global_level10_targets(&mut self) -> Result<()> {
-        for (id, target) in &self.target_displays {
+        // In ID order, so that displays whose IDs parse to the same index
+        // replace each other the same way on every run
+        let mut target_displays: Vec<_> = self.target_displays.iter().collect();
+        target_displays.sort_by_key(|(id, _)| *id);
+
+        for (id, target) in target_displays {
             let index = Self::find_primary_index(&target.primaries, false)?;
 
             let length = if index == 255 { 21 } else { 5 };
